@@ -5,14 +5,25 @@
       other input (clock, global generator, scheduler, history); see the signatures in Rdm/Model.
   (b) Map-iteration order: every `for … range <map>` of the code is listed below (regenerated from the
       source by a typed analysis on every run) and classified; the obligation is that the list has not
-      changed.  For each class the order-independence argument is a lemma about the model function
-      that ranges over the corresponding association list.
+      changed.  For each class the order-independence argument is a theorem about the model function
+      that ranges over the corresponding association list: a Go map is a `KMap β = List (String × β)` in
+      the model, so "the Go result does not depend on Go's map iteration order" is "the model function
+      gives the same result for every permutation of the association list (with distinct keys)".
+      These are the `…_map_order` theorems below (helper lemmas: Rdm/Lemmas/MapOrder*.lean); the table at
+      the end of the file says which site is covered by which theorem.
   (c) lib/ uses no clock, no global random source, no goroutines, no channels.
   Partial by nature: the bytes of a fresh process and the Go runtime's map order cannot be expressed in
   the model; they are covered by (b)+(c) plus the differential repetition in harness/main/c02.go.
 -/
 import Rdm.Generated.Sites
+import Rdm.Generated.Facts
 import Rdm.Model.Listener
+import Rdm.Lemmas.UtilityOwa
+import Rdm.Lemmas.MapOrderBasic
+import Rdm.Lemmas.MapOrderLoops
+import Rdm.Lemmas.MapOrderChoquet
+import Rdm.Lemmas.MapOrderParse
+import Rdm.Lemmas.MapOrderListener
 namespace Rdm.Props.C02
 open Rdm
 
@@ -64,5 +75,333 @@ theorem map_range_sites_classified :
 theorem no_ambient_nondeterminism :
     Sites.clockUses = [] ∧ Sites.globalRandUses = [] ∧ Sites.goStatements = [] ∧ Sites.channelOps = [] := by
   decide
+
+/-! ## (b) map-order independence of the model functions
+
+  Vocabulary (definitions in Rdm/Lemmas/MapOrderBasic.lean and MapOrderListener.lean):
+  * "two listings of the same Go map": `m₁.Perm m₂` and `(m₁.map Prod.fst).Nodup` (distinct keys; a
+    permutation of a list with distinct keys has distinct keys too).  `KMap.SameMap m₁ m₂` is the conjunction.
+  * `KMap.LookupEq m₁ m₂ := ∀ k, m₁.get? k = m₂.get? k` — the two lists are the same map.
+  * `Alt.SameMap a a'`: same id, value maps are two listings of the same map.
+  * `MParams.SameMaps`, `Addition.SameMaps`, `DMP.SameMaps`: same constructor, equal slices and scalars, maps are
+    two listings of the same map (thresholds: position by position).
+  * `R.Agree rel r₁ r₂`: both results are errors (the message may differ — C02: "rejected again, possibly
+    with differently worded details"), or both are values related by `rel`; spelled out by `agree_spelled_out`.
+-/
+
+/-- what `R.Agree` says -/
+theorem agree_spelled_out {γ δ : Type} (rel : γ → δ → Prop) (r₁ : R γ) (r₂ : R δ) :
+    R.Agree rel r₁ r₂ ↔
+      (∃ a b, r₁ = .ok a ∧ r₂ = .ok b ∧ rel a b) ∨ (∃ e e', r₁ = .error e ∧ r₂ = .error e') := by
+  cases r₁ <;> cases r₂ <;> simp [R.Agree]
+
+/-! ### 1. lookups (the basic tool; every `m[k]`, `Weights.Fetch`, `CriterionRawValue`, `CriterionValue`) -/
+
+/-- Go's `v, ok := m[k]` gives the same answer for every listing of the map.  Basic tool of all per-key
+    sites; directly: the lookups inside `Weights.Merge`, `WithCriterion`, `PrepareCumulatedWeightsMap`. -/
+theorem lookup_perm {β : Type} {m₁ m₂ : KMap β} (h : m₁.Perm m₂) (hk : (m₁.map Prod.fst).Nodup) (k : String) :
+    m₁.get? k = m₂.get? k :=
+  lookup_perm_eq h hk k
+
+/-- `_, ok := m[k]` -/
+theorem has_perm {β : Type} {m₁ m₂ : KMap β} (h : m₁.Perm m₂) (hk : (m₁.map Prod.fst).Nodup) (k : String) :
+    m₁.has k = m₂.has k :=
+  (KMap.LookupEq.of_perm h hk).has k
+
+/-- `Weights.Fetch` (value or the same panic) -/
+theorem fetch_perm {α : Type} {m₁ m₂ : KMap α} (h : m₁.Perm m₂) (hk : (m₁.map Prod.fst).Nodup) (k : String) :
+    KMap.fetch m₁ k = KMap.fetch m₂ k :=
+  (KMap.LookupEq.of_perm h hk).fetch k
+
+/-- `AlternativeWithCriteria.CriterionRawValue` -/
+theorem raw_perm {α : Type} {a a' : Alt α} (hid : a.id = a'.id) (h : a.vals.Perm a'.vals)
+    (hk : (a.vals.map Prod.fst).Nodup) (c : Crit α) : a.raw c = a'.raw c :=
+  Alt.SameMap.raw ⟨hid, h, hk⟩ c
+
+/-- `AlternativeWithCriteria.CriterionValue` -/
+theorem signed_perm {α : Type} [Num α] {a a' : Alt α} (hid : a.id = a'.id) (h : a.vals.Perm a'.vals)
+    (hk : (a.vals.map Prod.fst).Nodup) (c : Crit α) : a.signed c = a'.signed c :=
+  Alt.SameMap.signed ⟨hid, h, hk⟩ c
+
+/-- the canonical listing (ascending by key) is the same for every listing of a map.  Covers
+    `lib/model/weights.go:Weights.AsKeyValue` (collect in map order, then sort by name — a total order on
+    distinct keys), the key listing of `SatisfactionLevelsUpdateListeners.Fetch` (collected, then sorted, and only
+    used in a panic message), and the way the harness prints every Go map. -/
+theorem sorted_map_order {β : Type} {m₁ m₂ : KMap β} (h : m₁.Perm m₂) (hk : (m₁.map Prod.fst).Nodup) :
+    m₁.sorted = m₂.sorted :=
+  KMap.sorted_perm_eq h hk
+
+/-! ### 2. OWA -/
+
+/-- `lib/logic/preference-func/owa/owa.go:sortAlternativeCriteriaWeights` (sorted-before-use): the values are
+    collected from the alternative's map in map order and sorted (`sort.Float64s`) before they are zipped with
+    the sorted weights; the OWA value is the same for every listing of the value map (and every order of the
+    weighted criteria).  Distinct keys are not even needed.  Re-export of `Props.C03.owa_perm_invariant`. -/
+theorem owa_map_order (a a' : Alt Rat) (wc wc' : List (WCrit Rat)) (hv : a.vals.Perm a'.vals)
+    (hw : wc.Perm wc') : owa a wc = owa a' wc' :=
+  owa_perm_eq a a' wc wc' hv hw
+
+/-! ### 3. Choquet integral -/
+
+/-- the tie tolerance of the code is not negative (needed below: a tie group contains its own head) -/
+theorem choquetEps_nonneg : (0 : Rat) ≤ Num.ofConst Facts.choquetEps := by decide
+
+/-- `computeTotalWeight` on two ascending slices with the same entries (tied values possibly in another order):
+    the same list of components (criteria of the remaining set — sorted —, value added), or the same error.
+    The engine of the next theorem, also used by the Choquet listener's `decomposeWeights`. -/
+theorem choquetComponents_map_order (eps : Rat) (heps : 0 ≤ eps) {w w' : KMap Rat}
+    (hw : w.Perm w') (hwk : (w.map Prod.fst).Nodup) {l l' : List (String × Rat)} (hl : l.Perm l')
+    (hs : l.Pairwise (fun x y => x.2 ≤ y.2)) (hs' : l'.Pairwise (fun x y => x.2 ≤ y.2)) (prev : Rat) :
+    choquetComponents eps w l prev = choquetComponents eps w' l' prev :=
+  choquetComponents_perm eps heps (KMap.LookupEq.of_perm hw hwk) _ l l' (le_refl _) hl hs hs' prev
+
+/-- `lib/logic/preference-func/choquet/choquet-integral.go:prepareCriteriaInAscendingOrder` (sorted-before-use)
+    together with `computeTotalWeight` and `criterionKey`: the entries are collected in map order and sorted by
+    value with a *stable* sort, so entries with equal values stay in map order — but a tie group swallows all
+    of them, the remaining criteria are looked up under a canonical (sorted) key, and the group boundaries carry
+    the same values.  Hence the Choquet value (or the "missing capacity" error, including its message) is the
+    same for every listing of the alternative's value map and of the capacity table.  Full statement: ties,
+    near-ties within `eps`, missing capacities all included; the only hypothesis on `eps` is `0 ≤ eps`
+    (`choquetEps_nonneg`; for a negative `eps` the claim is false, see `choquet_negative_eps_counterexample`).
+    Distinct keys of the value map are not needed. -/
+theorem choquetValue_map_order (eps : Rat) (heps : 0 ≤ eps) {a a' : Alt Rat} (ha : a.vals.Perm a'.vals)
+    {w w' : KMap Rat} (hw : w.Perm w') (hwk : (w.map Prod.fst).Nodup) :
+    choquetValue eps a w = choquetValue eps a' w' :=
+  choquetValue_perm eps heps ha (KMap.LookupEq.of_perm hw hwk)
+
+/-- `decomposeWeights` of the Choquet listener (per criterion, the sum of the components it takes part in, in
+    the order of the alternatives): identical for every listing of the value maps and of the capacity table -/
+theorem choquetDecompose_map_order (eps : Rat) (heps : 0 ≤ eps) (cs : List (Crit Rat)) {co co' : List (Alt Rat)}
+    (h : List.Forall₂ (fun a a' : Alt Rat => a.vals.Perm a'.vals) co co')
+    {w w' : KMap Rat} (hw : w.Perm w') (hwk : (w.map Prod.fst).Nodup) :
+    choquetDecompose eps cs co w = choquetDecompose eps cs co' w' :=
+  choquetDecompose_perm eps heps cs h (KMap.LookupEq.of_perm hw hwk)
+
+/-- the instance the service runs: the extracted tolerance -/
+theorem choquetValue_map_order_code {a a' : Alt Rat} (ha : a.vals.Perm a'.vals)
+    {w w' : KMap Rat} (hw : w.Perm w') (hwk : (w.map Prod.fst).Nodup) :
+    choquetValue (Num.ofConst Facts.choquetEps) a w = choquetValue (Num.ofConst Facts.choquetEps) a' w' :=
+  choquetValue_map_order _ choquetEps_nonneg ha hw hwk
+
+/-! ### 4. Choquet capacity parser -/
+
+/-- `lib/logic/preference-func/choquet/choquet-integral_parsing.go:remapWeights` and `:prepareWeights` (per-key):
+    `parse` accepts every listing of the raw capacity table or none (a clash of canonical keys, a missing
+    subset, an unknown criterion, an out-of-range value are found in any order — only the message may name
+    another entry), and the accepted tables are listings of the same map: a permutation of each other, distinct
+    keys, hence equal lookups (next theorem).  Generic in the number type. -/
+theorem choquetParse_map_order {α : Type} [Num α] (crits : List (Crit α)) {w₁ w₂ : KMap α} (h : w₁.Perm w₂) :
+    R.Agree (fun r r' : KMap α => r.Perm r' ∧ (r.map Prod.fst).Nodup)
+      (choquetParse crits w₁) (choquetParse crits w₂) :=
+  choquetParse_perm_agree crits h
+
+/-- … in terms of lookups -/
+theorem choquetParse_map_order_lookups {α : Type} [Num α] (crits : List (Crit α)) {w₁ w₂ : KMap α}
+    (h : w₁.Perm w₂) :
+    R.Agree (fun r r' : KMap α => ∀ k, r.get? k = r'.get? k) (choquetParse crits w₁) (choquetParse crits w₂) :=
+  (choquetParse_perm_agree crits h).mono (fun _ _ hr => KMap.LookupEq.of_perm hr.1 hr.2)
+
+/-! ### 5. PrepareCumulatedWeightsMap -/
+
+/-- `lib/model/bias-listener.go:PrepareCumulatedWeightsMap` (per-key): when every considered alternative's value
+    map is listed in another order, the cumulated weights have the same lookups for every key (and the verdict
+    is the same when the mapper can fail): per key, the accumulation happens in the order of the alternatives
+    (a slice), never in the order of a map.  `mapper` is an arbitrary function of (key, value); generic in the
+    number type — no law of `+` is used, so float non-associativity cannot hide anything. -/
+theorem cumulated_map_order {α : Type} [Num α] (cs : List (Crit α)) (mapper : String → α → R α)
+    {co co' : List (Alt α)}
+    (h : List.Forall₂ (fun a a' : Alt α => a.vals.Perm a'.vals ∧ (a.vals.map Prod.fst).Nodup) co co') :
+    R.Agree (fun w w' : KMap α => ∀ k, w.get? k = w'.get? k)
+      (cumulated cs co mapper) (cumulated cs co' mapper) :=
+  cumulated_perm cs mapper h
+
+/-! ### 6. SortByWeights / RankCriteriaAscending -/
+
+/-- `Criteria.SortByWeights` (mechanism "stable sort over the declared criteria order"): it walks the criteria
+    slice and looks the weights up, so every listing of the weights map gives the same result (same error). -/
+theorem sortByWeights_map_order {α : Type} [Num α] (cs : List (Crit α)) {w₁ w₂ : KMap α} (h : w₁.Perm w₂)
+    (hk : (w₁.map Prod.fst).Nodup) : sortByWeights cs w₁ = sortByWeights cs w₂ :=
+  sortByWeights_lookupEq (KMap.LookupEq.of_perm h hk) cs
+
+/-- `RankCriteriaAscending` of all seven listeners, in particular
+    `lib/logic/preference-func/electreIII/electre_III-bias-listener.go:ElectreIIIBiasLIstener.RankCriteriaAscending`
+    (per-key copy `weights[c] = criterion.K`, then `SortByWeights`), majority / aspect elimination (weights map →
+    `SortByWeights`), weighted sum / OWA / satisfaction (`PrepareCumulatedWeightsMap` → `SortByWeights`) and
+    Choquet (`decomposeWeights` over `computeTotalWeight`): same verdict and the same ranking for every listing
+    of every map of the working state. -/
+theorem rankAsc_map_order (eps : Rat) (heps : 0 ≤ eps) {d d' : DMP Rat} (h : DMP.SameMaps d d') :
+    R.Agree (· = ·) (rankAsc eps d) (rankAsc eps d') :=
+  rankAsc_sameMaps eps heps h
+
+/-- the three weights-map cases spelled out with plain hypotheses (majority heuristic) -/
+theorem rankAsc_map_order_majority (eps : Rat) (nc co : List (Alt Rat)) (crit : List (Crit Rat)) {w w' : KMap Rat}
+    (h : w.Perm w') (hk : (w.map Prod.fst).Nodup) (cur : String) (seed : Int) (rnd : Bool) (dr : String) :
+    rankAsc eps ⟨nc, co, crit, .majority w cur seed rnd dr⟩ = rankAsc eps ⟨nc, co, crit, .majority w' cur seed rnd dr⟩ :=
+  sortByWeights_lookupEq (KMap.LookupEq.of_perm h hk) crit
+
+/-- (aspect elimination) -/
+theorem rankAsc_map_order_aspect (eps : Rat) (nc co : List (Alt Rat)) (crit : List (Crit Rat)) {w w' : KMap Rat}
+    (h : w.Perm w') (hk : (w.map Prod.fst).Nodup) (fn : String) (lv : Levels Rat) (seed : Int) (rnd : Bool) :
+    rankAsc eps ⟨nc, co, crit, .aspect fn lv seed w rnd⟩ = rankAsc eps ⟨nc, co, crit, .aspect fn lv seed w' rnd⟩ :=
+  sortByWeights_lookupEq (KMap.LookupEq.of_perm h hk) crit
+
+/-- (ELECTRE III: `ElectreIIIBiasLIstener.RankCriteriaAscending`) -/
+theorem rankAsc_map_order_electre (eps : Rat) (nc co : List (Alt Rat)) (crit : List (Crit Rat))
+    {ec ec' : KMap (ECrit Rat)} (h : ec.Perm ec') (hk : (ec.map Prod.fst).Nodup) (dist : LinFun Rat) :
+    rankAsc eps ⟨nc, co, crit, .electre ec dist⟩ = rankAsc eps ⟨nc, co, crit, .electre ec' dist⟩ :=
+  sortByWeights_lookupEq (electreWeights_sameMap ⟨h, hk⟩).lookupEq crit
+
+/-! ### 7. Weights.Merge / Copy / PreserveOnly, listener Merge and OnCriteriaRemoved -/
+
+/-- `lib/model/weights.go:Weights.Merge` (both loops), the two loops of
+    `lib/logic/preference-func/electreIII/electre_III-bias-listener.go:ElectreIIIBiasLIstener.Merge` (β = `ECrit`),
+    `lib/model/alternative.go:AlternativeWithCriteria.WithCriterion` (`other` = the one new entry) and
+    `lib/model/weights.go:Weights.Copy` (`other` = empty): for every listing of the two maps the verdict — and
+    here even the message — is the same, and the union is a listing of the same map (a permutation with
+    distinct keys, hence equal lookups). -/
+theorem mergeDisjoint_map_order {β : Type} {m₁ m₂ o₁ o₂ : KMap β} (hm : m₁.Perm m₂)
+    (hmk : (m₁.map Prod.fst).Nodup) (ho : o₁.Perm o₂) (hok : (o₁.map Prod.fst).Nodup) :
+    (∀ e, KMap.mergeDisjoint m₁ o₁ = .error e ↔ KMap.mergeDisjoint m₂ o₂ = .error e) ∧
+    (∀ r₁, KMap.mergeDisjoint m₁ o₁ = .ok r₁ → ∃ r₂, KMap.mergeDisjoint m₂ o₂ = .ok r₂ ∧
+      r₁.Perm r₂ ∧ (r₁.map Prod.fst).Nodup ∧ ∀ k, r₁.get? k = r₂.get? k) := by
+  obtain ⟨herr, hok'⟩ := mergeDisjoint_perm hm hmk ho
+  refine ⟨herr, fun r₁ h₁ => ?_⟩
+  obtain ⟨r₂, h₂, hp⟩ := hok' r₁ h₁
+  have hnd := (mergeDisjoint_ok_distinct h₁ hmk hok).2
+  exact ⟨r₂, h₂, hp, hnd, KMap.LookupEq.of_perm hp hnd⟩
+
+/-- `Weights.Copy` proper: merging the empty map in is the identity (so a copy is invisible in the model) -/
+theorem copy_is_identity {β : Type} (m : KMap β) : KMap.mergeDisjoint m [] = .ok m := by
+  simp [KMap.mergeDisjoint, pure, Except.pure]
+
+/-- `Weights.PreserveOnly` walks the criteria slice and fetches: same result, same panic, for every listing -/
+theorem preserveOnly_map_order {α : Type} {m₁ m₂ : KMap α} (h : m₁.Perm m₂) (hk : (m₁.map Prod.fst).Nodup)
+    (crits : List (Crit α)) : KMap.preserveOnly m₁ crits = KMap.preserveOnly m₂ crits :=
+  preserveOnly_lookupEq (KMap.LookupEq.of_perm h hk) crits
+
+/-- `Merge(params, addition)` of all seven listeners (uses `Weights.Merge`; ELECTRE: the two loops of
+    `ElectreIIIBiasLIstener.Merge`): same verdict, and the merged parameters again differ only in the listing
+    order of their maps. -/
+theorem mergeParams_map_order {α : Type} [Num α] {mp mp' : MParams α} {add add' : Addition α}
+    (h : MParams.SameMaps mp mp') (ha : Addition.SameMaps add add') :
+    R.Agree MParams.SameMaps (mergeParams mp add) (mergeParams mp' add') :=
+  mergeParams_sameMaps h ha
+
+/-- `OnCriteriaRemoved` of all seven listeners (`PreserveOnly`, per-key fetches): identical result -/
+theorem onRemoved_map_order {α : Type} [Num α] {mp mp' : MParams α} (h : MParams.SameMaps mp mp')
+    (left : List (Crit α)) : onRemoved mp left = onRemoved mp' left :=
+  onRemoved_sameMaps h left
+
+/-- `OnCriterionAdded` of all seven listeners only looks keys up (reference weight, capacities of the subsets
+    without the new criterion, thresholds): identical result and identical consumption of the random draws -/
+theorem onAdded_map_order {α : Type} [Num α] {mp mp' : MParams α} (h : MParams.SameMaps mp mp')
+    (crit ref : Crit α) (d : Draws α) : onAdded mp crit ref d = onAdded mp' crit ref d :=
+  onAdded_sameMaps h crit ref d
+
+/-! ### 8. CriteriaValuesRange -/
+
+/-- `CriteriaValuesRange` looks the criterion up in every alternative (slice order): identical for every
+    listing of the alternatives' value maps.  (Used by the anchoring / criteria-bounding code.) -/
+theorem valuesRange_map_order {α : Type} [Num α] {alts alts' : List (Alt α)}
+    (h : List.Forall₂ (fun a a' : Alt α => a.id = a'.id ∧ a.vals.Perm a'.vals ∧ (a.vals.map Prod.fst).Nodup)
+      alts alts') (c : Crit α) : valuesRange alts c = valuesRange alts' c :=
+  valuesRange_sameMaps (forall₂_imp (fun _ _ hab => ⟨hab.1, hab.2.1, hab.2.2⟩) h) c
+
+/-! ### the hypotheses are satisfiable; the `0 ≤ eps` hypothesis is needed -/
+
+def exW : KMap Rat := [("x,y", 1), ("y", 1/2)]
+def exA : Alt Rat := ⟨"a", [("x", 1), ("y", 1)]⟩
+def exA' : Alt Rat := ⟨"a", [("y", 1), ("x", 1)]⟩
+
+/-- a tie listed in both orders: covered by `choquetValue_map_order` -/
+example : choquetValue (1 / 100000) exA exW = choquetValue (1 / 100000) exA' exW :=
+  choquetValue_map_order _ (by norm_num) (by decide) (List.Perm.refl _) (by decide)
+
+example : sortByWeights ([] : List (Crit Rat)) [("a", 1), ("b", 2)] = sortByWeights [] [("b", 2), ("a", 1)] :=
+  sortByWeights_map_order _ (by decide) (by decide)
+
+/-- a working state and a re-listing of all its maps -/
+example : DMP.SameMaps
+    (⟨[], [exA], [⟨"x", "gain", none⟩, ⟨"y", "gain", none⟩], .majority [("x", 1), ("y", 2)] "" 0 false ""⟩ : DMP Rat)
+    ⟨[], [exA'], [⟨"x", "gain", none⟩, ⟨"y", "gain", none⟩], .majority [("y", 2), ("x", 1)] "" 0 false ""⟩ :=
+  ⟨.nil, .cons ⟨rfl, by decide, by decide⟩ .nil, rfl, ⟨by decide, by decide⟩, rfl, rfl, rfl, rfl⟩
+
+example : List.Forall₂ (fun a a' : Alt Rat => a.vals.Perm a'.vals ∧ (a.vals.map Prod.fst).Nodup) [exA, exA'] [exA', exA] :=
+  .cons ⟨by decide, by decide⟩ (.cons ⟨by decide, by decide⟩ .nil)
+
+/-- with a negative tolerance no value is "equal" to itself, the tie groups degenerate and the order of tied
+    entries becomes visible: the two listings of the same alternative give an accepted and a rejected result -/
+theorem choquet_negative_eps_counterexample :
+    exA.vals.Perm exA'.vals ∧ (exA.vals.map Prod.fst).Nodup ∧
+    (choquetValue (-1) exA exW).isOk = true ∧ (choquetValue (-1) exA' exW).isOk = false := by
+  have hA : ascendingVals exA = [("x", 1), ("y", 1)] := List.mergeSort_of_pairwise (by simp [exA])
+  have hA' : ascendingVals exA' = [("y", 1), ("x", 1)] := List.mergeSort_of_pairwise (by simp [exA'])
+  have hne : floatsAreEqual (1 : Rat) 1 (-1) = false := by simp [floatsAreEqual]
+  have kxy : criterionKey ["x", "y"] = "x,y" := by decide
+  have kyx : criterionKey ["y", "x"] = "x,y" := by decide
+  have kx : criterionKey ["x"] = "x" := by decide
+  have ky : criterionKey ["y"] = "y" := by decide
+  refine ⟨by decide, by decide, ?_, ?_⟩
+  · unfold choquetValue
+    rw [hA, choquetComponents]
+    simp only [dropGroup, hne, Bool.false_eq_true, if_false]
+    rw [choquetComponents]
+    simp only [dropGroup]
+    rw [choquetComponents]
+    simp [unionWeight, kxy, ky, exW, KMap.get?, List.lookup, bind, Except.bind, pure, Except.pure,
+      Except.isOk, Except.toBool]
+  · unfold choquetValue
+    rw [hA', choquetComponents]
+    simp only [dropGroup, hne, Bool.false_eq_true, if_false]
+    rw [choquetComponents]
+    simp only [dropGroup]
+    rw [choquetComponents]
+    simp [unionWeight, kyx, kx, exW, KMap.get?, List.lookup, bind, Except.bind, pure, Except.pure,
+      Except.isOk, Except.toBool, throw, throwThe, MonadExceptOf.throw]
+
+/-- the extracted constants used above are current -/
+theorem facts_fresh : (Facts.staleFacts.all fun n => !["choquetEps"].contains n) = true := by decide
+
+/-
+  ## site → theorem
+
+  per-key sites
+    choquet-integral_parsing.go:remapWeights ................ choquetParse_map_order (+ _lookups)
+    choquet-integral_parsing.go:prepareWeights .............. choquetParse_map_order
+    electre_III-bias-listener.go:Merge (loop 1, copy) ....... mergeDisjoint_map_order (β = ECrit), mergeParams_map_order
+    electre_III-bias-listener.go:Merge (loop 2, add) ........ mergeDisjoint_map_order (β = ECrit), mergeParams_map_order
+    electre_III-bias-listener.go:RankCriteriaAscending ...... rankAsc_map_order_electre, rankAsc_map_order
+    model/alternative.go:WithCriterion ...................... mergeDisjoint_map_order (other = [(name, value)]), lookup_perm
+    model/bias-listener.go:PrepareCumulatedWeightsMap ....... cumulated_map_order (used by rankAsc_map_order: ws/owa/satisf)
+    model/weights.go:Weights.Copy ........................... copy_is_identity, mergeDisjoint_map_order (other = [])
+    model/weights.go:Weights.Merge (loop 1, copy) ........... mergeDisjoint_map_order, mergeParams_map_order
+    model/weights.go:Weights.Merge (loop 2, add) ............ mergeDisjoint_map_order, mergeParams_map_order
+    anchoring/anchoring.go:matchScalingWithBounding ......... no model in this tree — differential repetition only
+    anchoring/ideal-reference-…:extractCriteriaValues ....... no model in this tree — differential repetition only
+    anchoring/ideal-reference-…:prepareCriteriaWithCoefficients  no model — differential repetition only
+    anchoring/inline-anchoring-applier.go:ApplyAnchoring .... no model — differential repetition only
+    anchoring/inline-anchoring-applier.go:arithmeticAverage ×2  no model — differential repetition only
+        (the tools are ready: `foldlM_perm_agree` for per-key loops, `cumulated_map_order` is the same shape as
+         `arithmeticAverage`; `valuesRange_map_order` covers the range computation these functions call)
+    criteria-mixing/criteria-mixing.go:criteriaToMix.mix .... no model — differential repetition only
+
+  sorted-before-use sites
+    choquet/choquet-integral.go:prepareCriteriaInAscendingOrder  choquetValue_map_order (full: ties and near-ties),
+                                                             choquetComponents_map_order, rankAsc_map_order (choquet)
+    owa/owa.go:sortAlternativeCriteriaWeights ............... owa_map_order
+    model/weights.go:Weights.AsKeyValue ..................... sorted_map_order (only used in panic messages)
+    satisfaction-levels-update.go:…Listeners.Fetch .......... sorted_map_order (key listing of a panic message; the
+                                                             lookup itself is lookup_perm); model: `aspectFns`/`satisfFns`
+                                                             are slices
+
+  message-only site
+    model/bias.go:ChooseBiases .............................. model `chooseBiases` takes the registry as a slice and
+                                                             puts only the unknown name into the message; verdict
+                                                             compared by the differential repetition
+
+  also proved, not tied to a range statement: sortByWeights_map_order, preserveOnly_map_order, onRemoved_map_order,
+  onAdded_map_order, valuesRange_map_order, choquetDecompose_map_order, fetch/raw/signed/has_perm (consumers that
+  only look keys up).
+-/
 
 end Rdm.Props.C02
